@@ -235,7 +235,7 @@ func symBinop(op token.Token, t types.Type, x, y value) value {
 		a := lift(c, x)
 		p := c.BigIntC(pow2(n))
 		if op == token.SHL {
-			return sym{c.Mul(a, p), k}
+			return wrapKind(c, c.Mul(a, p), k)
 		}
 		return sym{c.IDiv(a, p), k} // floor division == arithmetic shift
 	}
@@ -270,19 +270,7 @@ func symBinop(op token.Token, t types.Type, x, y value) value {
 			return sym{c.Div(a, b), k}
 		}
 	case isIntKind(k):
-		// narrow kinds wrap around exactly (mod 2^w); 64-bit kinds are mathematical integers
-		wrap := func(t *smt.Term) value {
-			w, narrow := widthBits(k)
-			if !narrow {
-				return sym{t, k}
-			}
-			m := c.BigIntC(pow2(uint64(w)))
-			if isUnsignedKind(k) {
-				return sym{c.IMod(t, m), k}
-			}
-			half := c.BigIntC(pow2(uint64(w - 1)))
-			return sym{c.Sub(c.IMod(c.Add(t, half), m), half), k}
-		}
+		wrap := func(t *smt.Term) value { return wrapKind(c, t, k) }
 		switch op {
 		case token.ADD:
 			return wrap(c.Add(a, b))
@@ -306,6 +294,19 @@ func symBinop(op token.Token, t types.Type, x, y value) value {
 				c.OnDomain("idiv", c.Ne(b, c.IntC(0)))
 			}
 			return sym{c.Sub(a, c.Mul(b, truncDiv(c, a, b))), k}
+		case token.OR:
+			// bit fields that cannot overlap: a | b == a + b when b < 2^k and 2^k divides a (or vice versa)
+			for i := 0; i < 2; i++ {
+				x, y := a, b
+				if i == 1 {
+					x, y = b, a
+				}
+				if lo, hi := intBounds(y); lo != nil && lo.Sign() >= 0 {
+					if xl, _ := intBounds(x); xl != nil && xl.Sign() >= 0 && uint(hi.BitLen()) <= pow2Divisor(x) {
+						return sym{c.Add(a, b), k}
+					}
+				}
+			}
 		case token.AND:
 			// x & (2^n - 1) == x mod 2^n in two's complement
 			if m, ok := maskBits(b); ok {
@@ -332,6 +333,75 @@ func symBinop(op token.Token, t types.Type, x, y value) value {
 		return boolVal(c.Ge(a, b))
 	}
 	panic(fmt.Sprintf("unsupported: symbolic binary op %T %s %T", x, op, y))
+}
+
+// intBounds: a cheap interval analysis for Int terms (nil = unknown).
+func intBounds(t *smt.Term) (lo, hi *big.Int) {
+	switch t.Op {
+	case "const":
+		if t.Val.IsInt() {
+			return new(big.Int).Set(t.Val.Num()), new(big.Int).Set(t.Val.Num())
+		}
+	case "mod":
+		if m := t.Args[1]; m.IsConst() && m.Val.Sign() > 0 {
+			return big.NewInt(0), new(big.Int).Sub(m.Val.Num(), big.NewInt(1))
+		}
+	case "+":
+		al, ah := intBounds(t.Args[0])
+		bl, bh := intBounds(t.Args[1])
+		if al != nil && bl != nil {
+			return new(big.Int).Add(al, bl), new(big.Int).Add(ah, bh)
+		}
+	case "*":
+		for i := 0; i < 2; i++ {
+			if k := t.Args[i]; k.IsConst() && k.Val.IsInt() && k.Val.Sign() >= 0 {
+				if l, h := intBounds(t.Args[1-i]); l != nil {
+					return new(big.Int).Mul(l, k.Val.Num()), new(big.Int).Mul(h, k.Val.Num())
+				}
+			}
+		}
+	}
+	return nil, nil
+}
+
+// pow2Divisor: the largest k such that 2^k is known to divide t (0 if unknown).
+func pow2Divisor(t *smt.Term) uint {
+	switch t.Op {
+	case "const":
+		if t.Val.IsInt() && t.Val.Sign() != 0 {
+			return t.Val.Num().TrailingZeroBits()
+		}
+		return 64
+	case "*":
+		return pow2Divisor(t.Args[0]) + pow2Divisor(t.Args[1])
+	case "+":
+		a, b := pow2Divisor(t.Args[0]), pow2Divisor(t.Args[1])
+		if a < b {
+			return a
+		}
+		return b
+	}
+	return 0
+}
+
+// wrapKind: narrow kinds wrap around exactly (mod 2^w); 64-bit kinds are mathematical integers.
+func wrapKind(c *smt.Ctx, t *smt.Term, k types.BasicKind) value {
+	w, narrow := widthBits(k)
+	if !narrow {
+		return sym{t, k}
+	}
+	m := c.BigIntC(pow2(uint64(w)))
+	if isUnsignedKind(k) {
+		if lo, hi := intBounds(t); lo != nil && lo.Sign() >= 0 && hi.Cmp(pow2(uint64(w))) < 0 {
+			return sym{t, k} // provably within range: no wrap
+		}
+		return sym{c.IMod(t, m), k}
+	}
+	half := c.BigIntC(pow2(uint64(w - 1)))
+	if lo, hi := intBounds(t); lo != nil && new(big.Int).Neg(lo).Cmp(pow2(uint64(w-1))) <= 0 && hi.Cmp(pow2(uint64(w-1))) < 0 {
+		return sym{t, k}
+	}
+	return sym{c.Sub(c.IMod(c.Add(t, half), m), half), k}
 }
 
 func maskBits(t *smt.Term) (uint64, bool) {
@@ -505,12 +575,8 @@ func symConv(dst, src types.Type, x sym) value {
 			}
 			return sym{x.t, dk}
 		}
-		m := c.BigIntC(pow2(uint64(w)))
-		if isUnsignedKind(dk) {
-			return sym{c.IMod(x.t, m), dk}
-		}
-		half := c.BigIntC(pow2(uint64(w - 1)))
-		return sym{c.Sub(c.IMod(c.Add(x.t, half), m), half), dk}
+		_ = w
+		return wrapKind(c, x.t, dk)
 	}
 	panic(fmt.Sprintf("unsupported: symbolic conversion %v -> %v", src, dst))
 }
